@@ -38,6 +38,20 @@ type c36S3 struct {
 	pageSize int
 	srv      *httptest.Server
 	bad      []string // requests the fake did not understand (harness problem, never a violation)
+	// fault plan: full (non-ranged) GETs of faultKey fail in faultMode ("500", "404", "corrupt")
+	faultKey  string
+	faultMode string
+	faultHits int
+}
+
+func (s *c36S3) SetFault(key, mode string) { s.mu.Lock(); s.faultKey, s.faultMode, s.faultHits = key, mode, 0; s.mu.Unlock() }
+
+func (s *c36S3) ClearFault() int {
+	s.mu.Lock()
+	defer s.mu.Unlock()
+	n := s.faultHits
+	s.faultKey, s.faultMode, s.faultHits = "", "", 0
+	return n
 }
 
 func c36NewS3() *c36S3 {
@@ -214,7 +228,21 @@ func (s *c36S3) get(w http.ResponseWriter, r *http.Request, bucket, key string) 
 	body, ok := s.objs[bucket+"/"+key]
 	s.ops = append(s.ops, c36Op{Method: "GET", Key: key, Ranged: rng != ""})
 	mod := s.mod[bucket+"/"+key]
+	fault := ""
+	if ok && rng == "" && s.faultKey != "" && key == s.faultKey {
+		fault = s.faultMode
+		s.faultHits++
+	}
 	s.mu.Unlock()
+	switch fault {
+	case "500":
+		s.fail(w, 500, "InternalError", "We encountered an internal error. Please try again.")
+		return
+	case "404":
+		ok = false
+	case "corrupt":
+		body = make([]byte, len(body)) // same size, no segment magic
+	}
 	if !ok {
 		s.fail(w, 404, "NoSuchKey", "The specified key does not exist.")
 		return
